@@ -21,6 +21,7 @@ ASSUMPTIONS = [
 WEIGHTS = {'create': 6, 'add': 8, 'remove': 5, 'delete': 3, 'delete_now': 2, 'process': 3, 'clear': 1,
            'toggle': 1}
 FINDINGS = {}
+FUZZ_RUNS = 20000      # thorough tier: coverage-guided stage (vlib/fuzz.py), when atheris is installed
 
 
 def strategy():
